@@ -305,6 +305,18 @@ def judge_pair(ctx, sut, left, right, spec_l, spec_r, kind, aimed, values_n):
         return
     ctx.count("equal.true" if forward else "equal.false")
     if not forward:
+        # "replacing an element by a reference to an EQUAL definition never changes meaning": an element
+        # that is NOT equal to the caller's definition must not be replaced by a reference to it
+        if not isinstance(left, type) and not isinstance(right, type):
+            try:
+                doc = sut.serialize_json(sut.Array([left, sut.String()]), definitions={"twin": right})
+                ctx.count("unequal_pairs.definition_substitution_checked")
+                first_item = (doc.get("items") or [None])[0]
+                if isinstance(first_item, dict) and first_item.get("$ref") == "#/definitions/twin":
+                    ctx.witness("unequal_but_substituted", case,
+                                "a != b, yet serialize_json replaced a by a reference to the definition b")
+            except Exception:  # pylint: disable=broad-except
+                ctx.count("unequal_pairs.serialize_failed")
         return
     # the library says they are interchangeable: check that they are
     finding = None
@@ -486,6 +498,22 @@ def run_shard(ctx):
             judge_pair(ctx, sut, left, right, spec, mutant, kind, aimed, ctx.params["values"])
         ctx.sample({"spec": spec}, every=80)
     parsed_copies(ctx, sut, kept)
+    # literals that differ only far down (true / 1, false / 0 below many containers): no depth at which the
+    # distinction stops
+    for number, depth in enumerate([2, 9, 16, 17, 31, 32, 33, 48, 64]):
+        if number % ctx.nshards != ctx.shard:
+            continue
+        for bottom, twin in ((True, 1), (False, 0), (1.0, True)):
+            for keyword in ("const", "enum", "default"):
+                deep_l, deep_r = bottom, twin
+                for level in range(depth):
+                    deep_l = [deep_l] if level % 2 else {"k": deep_l}
+                    deep_r = [deep_r] if level % 2 else {"k": deep_r}
+                spec_l = {"t": "Element", "kw": {keyword: [deep_l] if keyword == "enum" else deep_l}}
+                spec_r = {"t": "Element", "kw": {keyword: [deep_r] if keyword == "enum" else deep_r}}
+                ctx.count("pairs.deep_literal_lookalikes")
+                judge_pair(ctx, sut, gen_dsl.build(spec_l), gen_dsl.build(spec_r), spec_l, spec_r,
+                           "deep_literal_lookalike", [deep_l, deep_r], 4)
 
 
 def replay(case, ctx):
